@@ -23,7 +23,7 @@ impl Group for E2eGroup {
             l("e2e refused socks"), l("e2e reuse 6"), l("e2e reaper"),
             l("e2e badpreamble bitflip"), l("e2e badpreamble random"), l("e2e badpreamble truncated"), l("e2e badpreamble good"),
             l("e2e badpreamble good 1"), l("e2e badpreamble trimmed 1"), l("e2e badpreamble good 3"), l("e2e badpreamble trimmed 5"), l("e2e badpreamble lower 10"), l("e2e badpreamble straypause 0 3300"), l("e2e badpreamble goodpause 0 3300"), l("e2e badpreamble padpause 2 1200"),
-            l("e2e pushe2e"), l("e2e preamble 77"), l("e2e finburst 5000 3 0"), l("e2e finburst 8192 4 0"), l("e2e finburst 3000 9 30"), l("e2e finburst 1 1 0"), l("e2e udp 1 100 1472 9000"), l("e2e udp6 1 100 1472 65507 3"), l("e2e udp 65507 1 30000 2"), l("e2e early socks 300"),
+            l("e2e pushe2e"), l("e2e preamble 77"), l("e2e finburst 5000 3 0"), l("e2e finburst 8192 4 0"), l("e2e finburst 3000 9 30"), l("e2e finburst 1 1 0"), l("e2e udp 1 100 1472 9000"), l("e2e udp6 1 100 1472 65507 3"), l("e2e udp 65507 1 30000 2"), l("e2e udplate 17 1200 9000"), l("e2e early socks 300"),
             l("e2e slow up direct 6000000"), l("e2e slow down socks 6000000"), l("e2e slow up socks 3000000"), l("e2e slow down http 3000000"), l("e2e slow up http 3000000"),
             l("e2e blackhole all"), l("e2e noname"), l("e2e certreload BxCtAmB"), l("e2e certreload xBEC"), l("e2e certreload DADxB"),
         ];
@@ -37,7 +37,7 @@ impl Group for E2eGroup {
             4 => format!("e2e targetclose socks {}", rng.pick(&[0usize, 1, 5000, 200000])),
             5 => format!("e2e reuse {}", rng.range(2, 12)),
             6 => if rng.chance(1, 4) { format!("e2e badpreamble {} {} {}", rng.pick(&["straypause", "goodpause", "padpause"]), rng.below(crate::g_auth::PASSWORDS.len() as u64), rng.pick(&[300u64, 1100, 2200, 3300, 5500, 11000])) } else { format!("e2e badpreamble {} {}", rng.pick(&["bitflip", "random", "truncated", "good", "good", "trimmed", "lower"]), rng.below(crate::g_auth::PASSWORDS.len() as u64)) },
-            7 => format!("e2e {} {}", rng.pick(&["udp", "udp", "udp6"]), (0..rng.range(1, 5)).map(|_| rng.pick(&[1usize, 2, 100, 1472, 9000, 30000, 65507]).to_string()).collect::<Vec<_>>().join(" ")),
+            7 => format!("e2e {} {}", rng.pick(&["udp", "udp", "udp6", "udplate"]), (0..rng.range(1, 5)).map(|_| rng.pick(&[1usize, 2, 100, 1472, 9000, 30000, 65507]).to_string()).collect::<Vec<_>>().join(" ")),
             8 => format!("e2e early socks {}", rng.pick(&[1usize, 300, 20000])),
             9 => format!("e2e slow {} {} {}", rng.pick(&["up", "down"]), rng.pick(&["socks", "http", "direct"]), rng.pick(&[1_000_000usize, 3_000_000, 6_000_000, 12_000_000])),
             10 => if rng.chance(1, 2) { format!("e2e blackhole {}", rng.pick(&["socks", "http", "direct"])) } else { format!("e2e certreload {}", (0..rng.range(1, 8)).map(|_| *rng.pick(&["A", "B", "C", "D", "x", "t", "m", "E"])).collect::<String>()) },
@@ -55,7 +55,7 @@ impl Group for E2eGroup {
                 "reuse" => format!("e2e reuse {}", rng.range(2, 12)),
                 "finburst" => format!("e2e finburst {} {} {}", rng.pick(&[1usize, 100, 4096, 5000, 8192, 8193, 20000, 65535]), rng.range(1, 12), rng.pick(&[0u64, 0, 1, 30])),
                 "badpreamble" => if rng.chance(1, 4) { format!("e2e badpreamble {} {} {}", rng.pick(&["straypause", "goodpause", "padpause"]), rng.below(crate::g_auth::PASSWORDS.len() as u64), rng.pick(&[300u64, 1100, 2200, 3300, 5500, 11000])) } else { format!("e2e badpreamble {} {}", rng.pick(&["bitflip", "random", "truncated", "good", "good", "trimmed", "lower"]), rng.below(crate::g_auth::PASSWORDS.len() as u64)) },
-                "udp" => format!("e2e {} {}", rng.pick(&["udp", "udp", "udp6"]), (0..rng.range(1, 5)).map(|_| rng.pick(&[1usize, 2, 100, 1472, 9000, 30000, 65507]).to_string()).collect::<Vec<_>>().join(" ")),
+                "udp" => format!("e2e {} {}", rng.pick(&["udp", "udp", "udp6", "udplate"]), (0..rng.range(1, 5)).map(|_| rng.pick(&[1usize, 2, 100, 1472, 9000, 30000, 65507]).to_string()).collect::<Vec<_>>().join(" ")),
                 "early" => format!("e2e early socks {}", rng.pick(&[1usize, 300, 20000])),
                 "refused" => "e2e refused socks".to_string(),
                 "slow" => format!("e2e slow {} {} {}", rng.pick(&["up", "down"]), rng.pick(&["socks", "http", "direct"]), rng.pick(&[1_000_000usize, 3_000_000, 6_000_000, 12_000_000])),
@@ -99,7 +99,7 @@ fn wanted(line: &str) -> bool {
     let only = std::env::var("VH_ONLY").unwrap_or_default();
     if only.is_empty() { return true; }
     let name = line.split_whitespace().nth(1).unwrap_or("");
-    let name = if name == "udp6" { "udp" } else { name };
+    let name = if name == "udp6" || name == "udplate" { "udp" } else { name };
     only.split(',').any(|x| x == name)
 }
 
@@ -127,6 +127,7 @@ async fn scenario(t: &[String]) -> Res {
         ["e2e", "finburst", n, k, cut] => finburst(n.parse().map_err(|_| "n")?, k.parse().map_err(|_| "k")?, cut.parse().map_err(|_| "cut")?).await,
         ["e2e", "preamble", k] => preamble2(k.parse().map_err(|_| "k")?).await,
         ["e2e", "udp", sizes @ ..] => udp(&sizes.iter().filter_map(|x| x.parse().ok()).collect::<Vec<usize>>(), false).await,
+        ["e2e", "udplate", sizes @ ..] => udplate(&sizes.iter().filter_map(|x| x.parse().ok()).collect::<Vec<usize>>()).await,
         ["e2e", "udp6", sizes @ ..] => udp(&sizes.iter().filter_map(|x| x.parse().ok()).collect::<Vec<usize>>(), true).await,
         ["e2e", "early", "socks", n] => early(n.parse().map_err(|_| "n")?).await,
         _ => Err("unknown scenario".into()),
@@ -827,6 +828,38 @@ async fn udp(sizes: &[usize], v6: bool) -> Res {
     let at_target = seen.lock().unwrap().clone();
     if at_target.len() != sizes.len() || at_target.iter().zip(sizes.iter()).any(|(d, n)| d.len() != *n) {
         fails.push(fail("datagram_boundaries_changed/udp_tunnel", format!("sent sizes {sizes:?}, target received sizes {:?}", at_target.iter().map(|d| d.len()).collect::<Vec<_>>())));
+    }
+    ttask.abort();
+    w.stop().await;
+    Ok((format!("ok={okc}/{}", sizes.len()), fails))
+}
+
+/// an association towards a target that is not there yet: the first datagram meets a closed port (the host answers with
+/// ICMP port unreachable), then the target comes up - every datagram sent from then on must be delivered and answered
+async fn udplate(sizes: &[usize]) -> Res {
+    let w = World::start(None, None, pool_default(), false).await?;
+    // reserve a port and release it again
+    let taddr = { let s = std::net::UdpSocket::bind("127.0.0.1:0").map_err(|e| e.to_string())?; s.local_addr().map_err(|e| e.to_string())? };
+    let local = w.client.create_udp_proxy("127.0.0.1:0", taddr).await.map_err(|e| e.to_string())?;
+    let app = tokio::net::UdpSocket::bind("127.0.0.1:0").await.map_err(|e| e.to_string())?;
+    app.send_to(b"nobody home", local).await.map_err(|e| e.to_string())?;
+    tokio::time::sleep(Duration::from_millis(500)).await;
+    let tsock = match tokio::net::UdpSocket::bind(taddr).await { Ok(s) => s, Err(_) => { w.stop().await; return Ok(("port-taken".into(), vec![])); } };
+    let ttask = tokio::spawn(async move {
+        let mut buf = vec![0u8; 70000];
+        loop { let Ok((n, from)) = tsock.recv_from(&mut buf).await else { break }; let _ = tsock.send_to(&buf[..n], from).await; }
+    });
+    let mut fails = vec![];
+    let mut okc = 0;
+    for (i, n) in sizes.iter().enumerate() {
+        let d = pattern(*n, i as u8 + 1);
+        app.send_to(&d, local).await.map_err(|e| e.to_string())?;
+        let mut buf = vec![0u8; 70000];
+        match tokio::time::timeout(Duration::from_secs(3), app.recv_from(&mut buf)).await {
+            Ok(Ok((k, _))) if buf[..k] == d[..] => okc += 1,
+            Ok(Ok((k, _))) => fails.push(fail("datagram_changed/udp_tunnel", format!("datagram {i} of {n} bytes came back as {k} bytes"))),
+            _ => fails.push(fail("datagram_lost/udp_tunnel_after_unreachable", format!("the target came up after the association's first datagram met a closed port; datagram {i} of {n} bytes sent afterwards: no reply within 3 s"))),
+        }
     }
     ttask.abort();
     w.stop().await;
